@@ -17,9 +17,15 @@ def collapseGo (p : Nat → Bool) (r : Nat) : Bool → List Nat → List Nat
     else c :: collapseGo p r false cs
 def collapse (p : Nat → Bool) (r : Nat) (l : List Nat) : List Nat := collapseGo p r false l
 
+/-- remove trailing `ws` code points -/
+def dropTrailing (ws : Nat → Bool) : List Nat → List Nat
+  | [] => []
+  | c :: t => match dropTrailing ws t with
+    | [] => if ws c then [] else [c]
+    | t' => c :: t'
+
 /-- `str.strip()` with an abstract whitespace predicate -/
-def stripBy (ws : Nat → Bool) (l : List Nat) : List Nat :=
-  ((l.dropWhile ws).reverse.dropWhile ws).reverse
+def stripBy (ws : Nat → Bool) (l : List Nat) : List Nat := dropTrailing ws (l.dropWhile ws)
 
 def preprocessWith (isSep isDash ws : Nat → Bool) (t : List Nat) : List Nat :=
   stripBy ws (collapse isDash 45 (stripBy ws (collapse isSep 32 t)))
